@@ -26,6 +26,9 @@ pub enum Mode {
 
 pub struct Offer {
     pub mode: Mode,
+    /// several hundred entries under one prefix (anything that handles children, parents or
+    /// prefix scans in bounded pieces shows up here)
+    pub large: bool,
 }
 
 #[derive(Serialize, Deserialize, Clone, Debug)]
@@ -75,12 +78,16 @@ impl Scenario for Offer {
 
     fn name(&self) -> String {
         match self.mode {
+            Mode::State if self.large => "offer-large".into(),
             Mode::State => "offer".into(),
             Mode::Heads => "offer-heads".into(),
         }
     }
 
     fn gen(&self, rng: &mut Rng, tier: Tier) -> OfferPlan {
+        if self.large {
+            return gen_large(rng, tier);
+        }
         let mut g = GenCfg::swarm(rng);
         g.authors = rng.range(1, 3) as u8;
         let n = rng.urange(1, tier.pick(10, 16));
@@ -226,8 +233,81 @@ impl Scenario for Offer {
     }
 
     fn rule(&self) -> String {
+        if self.large {
+            return "A run offers two replicas, each in its own order with duplicates, 130-600 entries of one author at distinct keys under a common prefix of 0-2 bytes, 1-6 entries (records and deletion markers, older / equal / newer) at the prefix, at shorter prefixes, at the empty key and one level below the prefix, and 0-4 entries of a second author under the same prefix; every offer result and the final states are compared with the reference model.".into();
+        }
         "A run draws 1-16 entries from the biased alphabet (keys over {00,01,'a','b',FE,FF} up to length 4, 1-3 authors, few timestamps, ~25% deletion markers) and offers each of 2-3 replicas its own permutation with duplicates through local / remote / in-message paths, with clean restarts, flushes and transaction ageing (reorder, duplicate, restart, age-commit faults); in between, operations that have nothing to do with these entries (writes to and removal of other documents of the store, a download policy, a peer registration, a read, a read-only capability import for the same document) must change nothing.".into()
     }
+}
+
+/// 130-600 entries of one author under a common prefix, a few entries at the prefix, at shorter
+/// prefixes and one level below it (records and deletion markers, older / equal / newer), and a
+/// few entries of a second author under the same prefix; two replicas, each its own order.
+fn gen_large(rng: &mut Rng, tier: Tier) -> OfferPlan {
+    use crate::world::ALPHABET;
+    let plen = rng.urange(0, 2);
+    let prefix: Vec<u8> = (0..plen).map(|_| *rng.pick(&ALPHABET)).collect();
+    let n_children = *rng.pick(&[130usize, 200, 257, 300, tier.pick(400, 600)]);
+    let mut items: Vec<Ent> = Vec::new();
+    let mut seen = std::collections::BTreeSet::new();
+    while items.len() < n_children {
+        let mut k = prefix.clone();
+        k.push(rng.below(256) as u8);
+        k.push(rng.below(256) as u8);
+        if seen.insert(k.clone()) {
+            items.push(Ent { d: 0, a: 0, k, ts: rng.range(2, 4), c: rng.range(1, 3) as u8 });
+        }
+    }
+    // parents and near-parents
+    for _ in 0..rng.urange(1, 6) {
+        let k = match rng.below(4) {
+            0 => prefix.clone(),
+            1 => prefix[..prefix.len().saturating_sub(1)].to_vec(),
+            2 => Vec::new(),
+            _ => {
+                let mut k = prefix.clone();
+                k.push(rng.below(256) as u8);
+                k
+            }
+        };
+        items.push(Ent { d: 0, a: 0, k, ts: rng.range(1, 5), c: if rng.chance(1, 2) { 0 } else { rng.range(1, 3) as u8 } });
+    }
+    // another author under the same prefix: never touched
+    for _ in 0..rng.urange(0, 4) {
+        let mut k = prefix.clone();
+        k.push(rng.below(256) as u8);
+        items.push(Ent { d: 0, a: 1, k, ts: rng.range(1, 5), c: rng.range(0, 3) as u8 });
+    }
+    let n = items.len();
+    let backend = match rng.below(10) {
+        0..=5 => Backend::Mem,
+        _ => Backend::Disk,
+    };
+    let mut replicas = Vec::new();
+    for _ in 0..2 {
+        let mut order: Vec<usize> = (0..n).collect();
+        for _ in 0..rng.urange(0, 6) {
+            order.push(rng.usize_below(n));
+        }
+        rng.shuffle(&mut order);
+        let mut steps = Vec::new();
+        for (j, i) in order.into_iter().enumerate() {
+            if j % 97 == 96 && rng.chance(1, 2) {
+                steps.push(OStep::Check);
+            }
+            if backend != Backend::Mem && rng.chance(1, 300) {
+                steps.push(OStep::Restart);
+            }
+            let path = match rng.below(10) {
+                0 => Path::Local,
+                1..=7 => Path::Remote,
+                _ => Path::InMessage,
+            };
+            steps.push(OStep::Offer { i, path });
+        }
+        replicas.push(steps);
+    }
+    OfferPlan { seed: rng.next_u64(), backend, items, replicas, primary: if rng.chance(1, 2) { 0 } else { rng.below(4) as u8 }, neighbours: Vec::new() }
 }
 
 fn gen_heads(rng: &mut Rng, g: &GenCfg) -> Vec<(u8, u64)> {
